@@ -99,7 +99,7 @@ def default_knobs(rng: Rng, profile: str) -> Dict[str, Any]:
     k["steps"] = rng.weighted([(0, 2), (1, 2), (2, 5), (3, 4), (4, 1)])
     if profile == "cp":
         k["steps"] = rng.weighted([(1, 2), (2, 4), (3, 3)])
-    k["step_base"] = rng.choice([0, 1, 15, 100, 1234])
+    k["step_base"] = rng.choice([0, 1, 8, 9, 15, 98, 99, 100, 999, 1234])
     k["step_gap"] = rng.chance(0.35)
     k["pre_step_events"] = rng.chance(0.5)
     k["post_step_events"] = rng.chance(0.5)
@@ -414,7 +414,8 @@ class _RankGen:
         if self.rng.chance(self.k.get("flow_p", 0.5)):
             self.add_other(t, {"ph": "s", "id": corr, "pid": pid, "tid": tid, "cat": "ac2g", "name": "ac2g"})
 
-    def emit_op(self, pid: int, tid: int, t: int, depth: int, names: List[str], budget: List[int]) -> int:
+    def emit_op(self, pid: int, tid: int, t: int, depth: int, names: List[str], budget: List[int],
+                child_names: Optional[List[str]] = None) -> int:
         """Emit one host operator (with nested children) starting at t; returns its end."""
         r = self.rng
         self.ext_id += 1
@@ -434,7 +435,7 @@ class _RankGen:
                 budget[0] -= 1
                 cur = self.emit_leaf_runtime(pid, tid, cur)
             else:
-                cur = self.emit_op(pid, tid, cur, depth + 1, names, budget)
+                cur = self.emit_op(pid, tid, cur, depth + 1, child_names or names, budget, child_names)
             cur += self.gap()
         end = max(cur + self.gap(), t + self.min_dur())
         ev["_dur"] = end - t
@@ -572,7 +573,8 @@ class _RankGen:
                     saved_state = (dict(self.free_at), self.corr, self.ext_id, dict(self.last_launch_on_stream),
                                    list(self.event_records))
                     end = self.emit_op(self.host_pid, tid, cur, max(0, k["max_depth"] - 2),
-                                       ["autograd::engine::evaluate_function: " + fn], [6])
+                                       ["autograd::engine::evaluate_function: " + fn], [6],
+                                       child_names=[fn] + self.vocab["ops"])
                     if end > e or (end == e and not r.chance(k["tie_p"])):
                         # does not fit inside the window: roll back
                         del self.entries[saved:]
